@@ -3,21 +3,3 @@ HOOK_COMMITS = ["619d6a4", "cd1769c"]
 PENDING = "not claimed yet in this revision: model and theorems are still being built (see DESIGN.md section 5); it will be claimed once its check exists"
 
 NOT_APPLICABLE = {f"C{i:02d}": PENDING for i in range(1, 21)}
-
-LEVEL_TEXT = {
-    "C02": {
-        "text": "Lean theorems: for every object list and every abstract skill state, the i-th next() of the osu!/catch gradual machines equals the one-shot model with passed_objects=i, the machine yields exactly len() values and the last equals the full calculation (mania under the hypothesis incGrad=incOne, taiko falsified by decide-witnesses = known findings). The models are tied to /repo on every run by exact comparison of len/next walks (integer attribute fields and skill-signature class) between the real calculators and the compiled model, and every gradual value is compared bit-for-bit with the real one-shot result.",
-        "note": "Trusted: Lean kernel (+propext, Classical.choice, Quot.sound), hand-written model of the bookkeeping (Model/Gradual.lean), correspondence harness; strain skills/evaluators are abstract (S, process); rosu-map decoding exercised not modelled.",
-        "technique": "Lean 4 proof by induction over next calls (canonical-state invariant) + model/implementation correspondence",
-    },
-    "C14": {
-        "text": "Lean theorems: the four take-gated counting mechanisms equal plain prefix sums for every object list and every n (osu inspect closure, taiko max_combo<take, catch regular builder = gradual records under the no-trailing-tiny hypothesis, mania lazy take), hence kinds partition, monotone in n, capped at the total. Tied to /repo by comparing the model's counts for every n in 0..total+1 and u32::MAX with the real one-shot attributes; direct oracles check the counts against the decoded map itself.",
-        "note": "Trusted: Lean kernel, Model/Gradual.lean one-shot functions, per-object summaries from the hook (osu nested counts, catch record sequence, mania increments), correspondence harness.",
-        "technique": "Lean 4 proof (fold/prefix-sum equalities) + model/implementation correspondence",
-    },
-    "C15": {
-        "text": "Lean theorems over arbitrary operation sequences (next, nth k for any k, len): every reachable state of the osu!/catch/mania machines is canonical (idx <= n), len() = remaining and never underflows, exhausted stays None, nth processes min(k+1, remaining) and equals k+1 next calls whenever k < remaining, no panic; the full Iterator::nth contract is proved FALSE of the code (decide witness; known finding), taiko's violations are decide-witnesses. Tied to /repo by exact comparison of exhaustive short and random long op sequences between real calculators and the compiled model; direct oracles re-check len/nth/adaptors on the implementation.",
-        "note": "Trusted: Lean kernel, Model/Gradual.lean machines (release-profile wrap-around modelled for taiko len), correspondence harness.",
-        "technique": "Lean 4 proof: invariant over arbitrary op sequences (reachable-state induction) + model/implementation correspondence",
-    },
-}
